@@ -68,6 +68,19 @@ def Graph.canon (g : Graph E) : Graph E :=
 
 def CompSys.canon (s : CompSys E) : CompSys E := { s with g := s.g.canon }
 
+def Stmt.canon : Stmt E → Stmt E
+  | .assign s e => .assign s e
+  | .ode cs => .ode cs.canon
+
+/-- the model with every compartmental system in canonical emission order -/
+def Model.canonical {M : Type} (m : Model E M) : Model E M :=
+  { m with statements := m.statements.map Stmt.canon }
+
+/-- the repaired pre-image: `encode` of the canonically ordered model -/
+def encodeRepaired {M R : Type} (c : Codec E M) (rowDigest : R → Nat) (dumps : Json → String) (ds : Dataset R)
+    (m : Model E M) : List Chunk :=
+  encode c rowDigest dumps ds m.canonical
+
 /-- `adj[u][v]` -/
 def Graph.rate? (g : Graph E) (u v : Node E) : Option E := (g.lookup u).bind (fun ss => ss.lookup v)
 
